@@ -162,6 +162,22 @@ NKeyEnc == NEncodings * Len(EncScalars)
 KeyEncAt(j) ==
   LET k == EncScalars[1 + ((j - 1) \div NEncodings)]
   IN  KItem("key.new", "encoded_secret", [secret |-> BytesToHex(Encodings(k)[1 + ((j - 1) % NEncodings)])])
+\* HISTORIES with polynomial-hash twins (DocAst!PolyTwins) of a key / a seed on one thread: the twin right after the
+\* original, and the original again
+TwinSteps(b, mk(_)) ==
+  LET tw == PolyTwins(b, 0)
+      some == [q \in 1..(IF Len(tw) < 40 THEN Len(tw) ELSE 40) |-> tw[1 + (((q - 1) * 7) % Len(tw))]]
+  IN  Concat([q \in 1..Len(some) |-> <<mk(b), mk(some[q])>>]) \o <<mk(b)>>
+NTwinHist == IF Thorough THEN 30 ELSE 6
+TwinKeyAt(j) ==
+  LET k == IF j = 1 THEN HexToBytes("4f3edf983ac636a65a842ce7c78d9aa706d3b113bce9c46f30d7d21715b23b1d") ELSE Prng(K("tw", <<j>>), 31) \o <<77>>
+      z == BytesToHex(Prng(K("twz", <<j>>), 32))
+  IN  IF j % 2 = 1 THEN KItem("seq", "polynomial_twin_keys", [steps |-> TwinSteps(k, LAMBDA b : [op |-> "key.sign", in |-> [secret |-> BytesToHex(b), digest |-> z]])])
+      ELSE KItem("seq", "polynomial_twin_keys", [steps |-> TwinSteps(k, LAMBDA b : [op |-> "key.new", in |-> [secret |-> BytesToHex(b)]])])
+TwinSeedAt(j) ==
+  LET s == Prng(K("tws", <<j>>), IF j % 2 = 0 THEN 64 ELSE 16)
+  IN  KItem("seq", "polynomial_twin_seeds", [steps |-> TwinSteps(s, LAMBDA b : [op |-> "hdk.derive", in |-> [seed |-> BytesToHex(b), path |-> HistPaths[1 + (j % 2)]]])])
+
 \* HISTORIES of related keys on one thread: k, n - k (same x, opposite y), lambda k and lambda^2 k (same y: the
 \* secp256k1 endomorphism), k + 1, 2 k, k again: public key and address are functions of the secret alone
 Lambda == HexToBytes("5363ad4cc05c30e0a5261c028812645a122e22ea20816678df02967c1b23bd72")
